@@ -264,6 +264,7 @@ def run(ctx):
         "values are exact Gaussian rationals in the model; float results are compared with tolerance 1e-9 x operand magnitude",
         "labels/mapping of results are compared only where the property states them (a*b vs b*a, re-stacking)",
     ]
+    core.df_stage(ctx, df)   # mixed histories (spec/DF.tla): the clauses that come from this property's text
     return core.finish(ctx, rule=RULE, extra={"embeddings": [e.name for e in embs]})
 
 
